@@ -166,6 +166,32 @@ def rule_strand(ctx, R):
             only_none = reach - (cfg.fwd(b, [some]) if some is not None else set())
             ok = bool(regs & reach) or bool(unb & only_none)
             R.inst(fn, "empty-pop:" + callee(t).split("::")[-1], {"none_edge_reaches_reregistration": bool(regs & reach)})
+            # the re-registration covers ALL keys of the blocking call (the connection's
+            # BlockedState), not just the key of this wake-up
+            for r_ in sorted(regs & reach):
+                ka = b.term(r_)["a"][3] if len(b.term(r_)["a"]) > 3 else None
+                if ka is None or op_is_const(ka):
+                    continue
+                P = prov.operand_origins(b, ka, deep=True)
+                fields = set(P.fields)
+                for f_, bbi in P.via:
+                    tt = b.term(bbi)
+                    if tt["k"] == "call":
+                        for cl in tt["clos"]:
+                            pass
+                for rr in P.roots:
+                    if rr[0] == "call":
+                        tt = b.term(rr[2])
+                        # keys collected by an iterator chain over blocked.keys
+                        for a_ in tt["a"]:
+                            if not op_is_const(a_):
+                                fields |= set(prov.operand_origins(b, a_, deep=True).fields)
+                from_state = any(f.endswith("BlockedState.keys") for f in fields)
+                from_wakeup_only = any(f.endswith("WakeupRequest.key") for f in fields) and not from_state
+                R.inst(fn, "reregistration-keys:" + callee(t).split("::")[-1], {"from_blocked_state_keys": from_state})
+                if not from_state:
+                    R.finding(fn, "reregistration:not-all-keys:" + callee(t).split("::")[-1],
+                              "the woken client is registered again on %s instead of on all keys of its blocking call (the wake-up removed every registration): elements pushed to its other keys wake nobody and it stays blocked" % ("the notified key only" if from_wakeup_only else "keys that do not come from its BlockedState"), b.loc(r_))
             if not ok:
                 R.finding(fn, "empty-pop-strands-client:" + callee(t).split("::")[-1],
                           "a woken client whose element was taken by someone else stays in the Blocked state with no registration left (neither re-registered nor answered): it is never served and never times out", b.loc(i))
